@@ -47,6 +47,7 @@ def segOfJson (j : Json) : Seg :=
   match jarr j with
   | [raw, .str "binascii"] => ⟨jstr raw, .binascii⟩
   | [raw, .str "unicode"] => ⟨jstr raw, .unicode⟩
+  | [raw, .str "nonascii"] => ⟨jstr raw, .nonAscii⟩
   | [raw, d] => ⟨jstr raw, match jarr d with | [_, s] => .ok (jstr s) | _ => .binascii⟩
   | _ => ⟨"", .binascii⟩
 
